@@ -22,6 +22,7 @@ const (
 	maxScriggoFunctionsCount = 256
 	maxFieldIndexesCount     = 256
 	maxSelectCasesCount      = 65536
+	maxTextsCount            = 65536
 
 	// Types.
 	maxTypesCount = 256
